@@ -190,6 +190,9 @@ unsigned int get_index_reg(struct instr *instruc, const char *mem, char reg[]) {
   // check closing bracket
   if (mem[len - 1] != ']')
     return EXIT_FAILURE;
+  // there is exactly one pair of brackets
+  if (strchr(mem, '[') != strrchr(mem, '[') || strchr(mem, ']') != mem + len - 1)
+    return EXIT_FAILURE;
   // default sib_disp;
   instruc->sib_disp = SIB;
   // copies the index register from mem to reg ex: "[rcx+rax+0x16]" -> "rax"
